@@ -22,6 +22,8 @@ def check(ctx, rep):
     W.rule_M10(m, rep)
     W.rule_M11(m, rep)
     S.rule_A1(ctx, rep)
+    # "a metric too large for the buffer is written during its own emit": the buffer is the one the caller asked for
+    S.rule_A2_A3(ctx, rep)
     # Ok from an adapter means the socket took the datagram (else a flush 'succeeds' with nothing written)
     S.rule_E1(ctx, rep)
     S.rule_lock_discipline(ctx, rep, 'D1')
